@@ -190,8 +190,11 @@ def run(ctx: Ctx) -> None:
     ctx.check("C06.R6", f"{M}:H11Protocol.handle", "receive_data(event.data) then _handle_events()", ok, "every read must be fed to h11 before events are processed", arm or hd)
 
     if not isinstance(ctx, Alias):
+        from . import typestate_rules
+
+        typestate_rules.run_for(ctx, "C06")
         from . import c16
 
-        c16.run(Alias(ctx, "C06.R7", "both read loops hand every read - including the empty read at EOF - to the protocol and then report Closed (h11 turns a truncated message into 400 + close only when it sees the EOF) (C16.R2 on _read_data)", only={"C16.R2"}, where=["TCPServer._read_data"]))
+        c16.run(Alias(ctx, "C06.R7", "both workers hand every read - including the empty read at EOF - to the protocol, report Closed, and really close the transport when the protocol says Closed (C16.R2 on _read_data/_close/protocol_send)", only={"C16.R2"}, where=["TCPServer._read_data", "TCPServer._close", "TCPServer.protocol_send"]))
 
     ctx.assume("not decided: that h11 never yields events of request N+1 before start_next_cycle(); byte boundaries inside reads; h11's own keep-alive / HTTP/1.0 / Connection: close state tracking (trusted library)")
